@@ -71,6 +71,10 @@ def varied_sentence(rng, payload, **kw):
         kw.setdefault("report", rng.choice([b"VDM", b"VDO", b"VDX", b"ABM", b"BBM", b"vdm", b"TXT", b"\xff\xfe\xfd"]))
         kw.setdefault("channel", rng.choice([b"A", b"B", b"", b"1", b"2", b"C", b"AB"]))
         kw.setdefault("delim", rng.choice([b"!", b"!", b"$"]))
+    if rng.random() < 0.15 and "tagblock" not in kw:
+        # a tag block is skipped as a unit, whatever it contains: delimiters, commas, '*', digits
+        kw["tagblock"] = rng.choice([b"t:MAYDAY!,c:1696241893*1E", b"s:$X,1,2,3,4,5,6,7*00", b"!,,,,,B,w", b"$AIVDM,1,1,,A,15M,0*00",
+                                     b"c:1,!AIVDM,9,9,9,w,www,5", b",,,,,,,", b"*"])
     return ais.sentence(payload, **kw)
 
 
@@ -471,10 +475,26 @@ class C07(SentProp):
         ops = []
         tk = [bytes([a, b]) for a in range(256) for b in range(256) if a != 42 and b != 42]
         if tier == "quick":
-            tk = rng.sample(tk, 600) + TALKER_LIST
+            # the ten known ids in every casing and with each byte replaced by its neighbours / bit-flipped twins
+            near = set()
+            for t in TALKER_LIST:
+                for a in {t[0], t[0] ^ 0x20, t[0] ^ 0x80, t[0] + 1, t[0] - 1, t[0] ^ 1}:
+                    for b in {t[1], t[1] ^ 0x20, t[1] ^ 0x80, t[1] + 1, t[1] - 1, t[1] ^ 1}:
+                        if a != 42 and b != 42:
+                            near.add(bytes([a & 0xFF, b & 0xFF]))
+                near.add(t[::-1])
+            tk = rng.sample(tk, 600) + TALKER_LIST + sorted(near)
         p, f = gen.valid_message_payload(rng, 1)
         for t in tk:
             ops += ["N 0", L(ais.sentence(p, fill=f, talker=t), 0, 0)]
+        for r3 in (b"VDM", b"VDO"):
+            for i in range(3):
+                for c in {r3[i] ^ 0x20, r3[i] ^ 0x80, r3[i] + 1, r3[i] - 1, r3[i] ^ 1}:
+                    rr = bytearray(r3)
+                    rr[i] = c & 0xFF
+                    if 42 not in rr:
+                        ops += ["N 0", L(ais.sentence(p, fill=f, report=bytes(rr)), 0, 0)]
+            ops += ["N 0", L(ais.sentence(p, fill=f, report=r3.lower()), 0, 0), "N 0", L(ais.sentence(p, fill=f, report=r3[::-1]), 0, 0)]
         yield ("talkers", ops)
         ops = []
         for v in range(256):
